@@ -59,6 +59,8 @@ func runC16(c *Ctx) {
 	c.floor("DE", 1)
 	c.floor("DA", 8)
 	c.floor("DL", 4)
+	s.ruleConsume("DL.CONSUME")
+	c.floor("DL.CONSUME", 3)
 	s.ruleDR("DR")
 	c.floor("DR.SHORT", 1)
 	c.floor("DR.LINE", 0)
